@@ -346,6 +346,46 @@ func runC10(ctx *core.Ctx) {
 		}
 		cs.Flush(lc)
 	})
+	// a property that is not documented has no default handler: allowlisting it without a matcher keeps
+	// nothing, however close its name is to a documented one and whatever value it carries
+	ctx.Run("undocumented-properties", len(gen.CSSProperties), func(cs *core.Case) {
+		p := gen.CSSProperties[cs.Index]
+		known := map[string]bool{}
+		for _, q := range gen.CSSProperties {
+			known[q] = true
+		}
+		vals := append([]string{"red", "10px", "none", "1", "inherit"}, gen.WellKnownCSS[p]...)
+		if len(vals) > 9 {
+			vals = vals[:9]
+		}
+		lc := core.LocalCounts{}
+		var names []string
+		for _, sf := range []string{"-start", "-end", "-inline", "-block", "-inline-start", "-block-end", "-top", "-left", "-x", "-y", "-color", "-width", "-style", "x", "-"} {
+			names = append(names, p+sf)
+		}
+		for _, pf := range []string{"x", "x-", "scrollbar-", "inner-"} {
+			names = append(names, pf+p)
+		}
+		for _, name := range names {
+			if known[name] || known[strings.TrimLeft(name, "-")] {
+				continue
+			}
+			env := NewEnv([]spec.Op{{K: spec.KNew}, {K: spec.KAllowElements, Names: []string{"span"}}, {K: spec.KAllowStyles, Attrs: []string{name}, Matcher: "default", Scope: []string{"global", "els", "match"}[cs.Index%3], Names: []string{"span"}, ElRe: `^sp`}})
+			for _, v := range vals {
+				in := `<span style="` + gen.CanonEscape(name+": "+v) + `">x</span>`
+				out := env.Pol.Sanitize(in)
+				cs.Eval()
+				lc["undocumented_property_probes"]++
+				if strings.Contains(out, "style") {
+					cs.Violate("C10:undocumented-property-kept", fmt.Sprintf("%q is not a documented property and was allowlisted without a matcher, yet its declaration is kept: input=%q output=%q", name, in, out),
+						map[string]interface{}{"policy": spec.Describe(env.Ops), "ops": env.Ops, "input": core.Show(in), "output": core.Show(out)})
+				}
+			}
+		}
+		cs.Nontrivial(core.Hash("undoc", p))
+		cs.Flush(lc)
+	})
+	ctx.Floor("undocumented_property_probes", 10000)
 	ctx.Floor("boundary_probes", 1000)
 	ctx.MinNontrivial(int64(ctx.N(20000, 300000)))
 	ctx.Floor("output_declarations_judged", 20000)
